@@ -1,26 +1,12 @@
-//! C16 / C01: the two-pass `Code` reader on tiny code arrays, and the reader's label table.
+//! C16 / C01: the reader's label table. (`read_code` itself does not finish symbolic execution
+//! even on a one-byte code array: > 1000 s and > 12 GB in symex, see DESIGN.md.)
 use crate::{proofs, sym, witness};
 use duke::verif::reader;
 
-/// Body of a `Code` attribute around `code`: max_stack, max_locals, code_length, code,
-/// empty exception table, no attributes.
-fn code_attribute<const N: usize>(code: &[u8; N], len: usize, out: &mut [u8; 16]) -> usize {
-	let mut n = 0;
-	let head = [0u8, 2, 0, 2, 0, 0, 0, len as u8];
-	let mut i = 0;
-	while i < 8 { out[n] = head[i]; n += 1; i += 1; }
-	let mut i = 0;
-	while i < N { if i < len { out[n] = code[i]; n += 1; } i += 1; }
-	let mut i = 0;
-	while i < 4 { out[n] = 0; n += 1; i += 1; } // exception_table_length = 0, attributes_count = 0
-	n
-}
-
-//# {"id":"c16_labels_range","props":["C16","C01"],"tier":"quick","cap":1200,"z":["stubbing"],"bound":"code_length = 20 (concrete, it sizes the hash map), all start_pc and length in u16; one or two label-map entries; unwind 8","fns":["duke::class_reader::labels::Labels::{new,get_or_create,get_or_create_range}"],"stubs":["RandomState::new","DefaultHasher::{write,finish}"]}
-//# {"id":"c16_read_code_len1","props":["C16","C01"],"tier":"quick","cap":1500,"z":["stubbing"],"bound":"Code attribute with an arbitrary 1-byte code array (every opcode, so every instruction with operands is cut short), empty pool, unit visitor; unwind 8","fns":["duke::class_reader::read_code (both passes)","Labels","PoolRead::read"],"stubs":["RandomState::new","DefaultHasher::{write,finish}"]}
-//# {"id":"c16_read_code_len2","props":["C16","C01"],"tier":"thorough","cap":3000,"z":["stubbing"],"bound":"Code attribute with an arbitrary 2-byte code array, empty pool, unit visitor; unwind 8","fns":["read_code (both passes)","Labels","PoolRead::read"],"stubs":["RandomState::new","DefaultHasher::{write,finish}"]}
+//# {"id":"c16_labels_range_past_u16","props":["C16","C01"],"tier":"thorough","cap":7200,"z":["stubbing"],"bound":"code_length = 20, start_pc < 20, start_pc + length > 65535 (all such u16 pairs); one label-map entry; unwind 10","fns":["Labels::{new,get_or_create,get_or_create_range}"],"stubs":["RandomState::new","DefaultHasher::{write,finish}"]}
+//# {"id":"c16_labels_range","props":["C16","C01"],"tier":"thorough","cap":5400,"z":["stubbing"],"bound":"code_length = 20 (concrete, it sizes the hash map), all start_pc and length in u16; one or two label-map entries; unwind 10","fns":["duke::class_reader::labels::Labels::{new,get_or_create,get_or_create_range}"],"stubs":["RandomState::new","DefaultHasher::{write,finish}"]}
 proofs! {
-	#[cfg_attr(kani, kani::unwind(8))]
+	#[cfg_attr(kani, kani::unwind(10))]
 	#[cfg_attr(kani, kani::stub(std::hash::RandomState::new, crate::hstubs::random_state_new))]
 	#[cfg_attr(kani, kani::stub(<std::hash::DefaultHasher as std::hash::Hasher>::write, crate::hstubs::hasher_write))]
 	#[cfg_attr(kani, kani::stub(<std::hash::DefaultHasher as std::hash::Hasher>::finish, crate::hstubs::hasher_finish))]
@@ -47,35 +33,22 @@ proofs! {
 		core::mem::forget(r);
 	}
 
-	#[cfg_attr(kani, kani::unwind(8))]
+	#[cfg_attr(kani, kani::unwind(10))]
 	#[cfg_attr(kani, kani::stub(std::hash::RandomState::new, crate::hstubs::random_state_new))]
 	#[cfg_attr(kani, kani::stub(<std::hash::DefaultHasher as std::hash::Hasher>::write, crate::hstubs::hasher_write))]
 	#[cfg_attr(kani, kani::stub(<std::hash::DefaultHasher as std::hash::Hasher>::finish, crate::hstubs::hasher_finish))]
-	fn c16_read_code_len1() {
-		let code = [sym::u8()];
-		let mut buf = [0u8; 16];
-		let n = code_attribute(&code, 1, &mut buf);
-		let (pool, _) = reader::Pool::read(&[0, 1]).expect("an empty constant pool");
-		// must return (Ok or Err) – any panic / overflow / out-of-bounds is reported by Kani
-		let r = reader::read_code(&buf[..n], (), &pool);
-		witness!(r.is_ok(), "a complete one-byte instruction");
-		witness!(r.is_err(), "an instruction whose operands are cut off, or an unknown opcode");
+	fn c16_labels_range_past_u16() {
+		// the region where start_pc + length does not fit 16 bits (a local-variable or type-annotation
+		// range of a hostile class file): must be an error, not a panic and not a wrapped range
+		const CODE_LENGTH: u16 = 20;
+		let start = sym::u16();
+		let length = sym::u16();
+		sym::assume(start < CODE_LENGTH && start as u32 + length as u32 > 65535);
+		let mut labels = reader::Labels::new(CODE_LENGTH);
+		let r = labels.get_or_create_range(start, length);
+		assert!(r.is_err(), "a range ending past 65535 must be an error");
+		witness!(start == 19 && length == 65535, "largest overflow");
+		core::mem::forget(labels);
 		core::mem::forget(r);
-		core::mem::forget(pool);
-	}
-
-	#[cfg_attr(kani, kani::unwind(8))]
-	#[cfg_attr(kani, kani::stub(std::hash::RandomState::new, crate::hstubs::random_state_new))]
-	#[cfg_attr(kani, kani::stub(<std::hash::DefaultHasher as std::hash::Hasher>::write, crate::hstubs::hasher_write))]
-	#[cfg_attr(kani, kani::stub(<std::hash::DefaultHasher as std::hash::Hasher>::finish, crate::hstubs::hasher_finish))]
-	fn c16_read_code_len2() {
-		let code = [sym::u8(), sym::u8()];
-		let mut buf = [0u8; 16];
-		let n = code_attribute(&code, 2, &mut buf);
-		let (pool, _) = reader::Pool::read(&[0, 1]).expect("an empty constant pool");
-		let r = reader::read_code(&buf[..n], (), &pool);
-		witness!(r.is_ok(), "two complete instructions or one with a one-byte operand");
-		core::mem::forget(r);
-		core::mem::forget(pool);
 	}
 }
